@@ -10,6 +10,7 @@ import (
 	"strconv"
 	"strings"
 	"text/scanner"
+	"unicode"
 
 	"github.com/basecomplextech/spec/internal/lang/syntax"
 )
@@ -118,6 +119,12 @@ func (l *lexer) Lex(lval *yySymType) int {
 			continue
 
 		default:
+			// Single characters are tokens by their own code. The parser numbers its named tokens
+			// from the private use area on, a character from there would be taken for a keyword.
+			if token > unicode.MaxASCII {
+				return l.fail("unexpected character %q", text)
+			}
+
 			lval.yys = int(token)
 			lval.string = text
 
